@@ -4,6 +4,8 @@ import (
 	"context"
 	"fmt"
 	"io"
+	"math/rand"
+	"os"
 	"path/filepath"
 	"sort"
 	"strings"
@@ -30,6 +32,12 @@ type icase struct {
 	NStates int
 	Honest  bool
 	Broken  string
+	// cases in which the served items do not match the served map
+	Item   string `json:",omitempty"` // the item type whose checksum in the served map does not match what is served
+	Tamper string `json:",omitempty"`
+	Map    string `json:",omitempty"` // genuine | resigned-for-others | recomputed-signature-stale | recomputed-for-others-signature-stale
+	Via    string `json:",omitempty"` // importer | importblocks
+	Where  string `json:",omitempty"` // scan: the place of the damage
 }
 
 type outcome struct {
@@ -38,6 +46,26 @@ type outcome struct {
 	Validator   string   // error of IsValidBlockFromLocalFS on the imported files ("" = passed)
 	Oracle      []string // clauses of the statement the imported block breaks (independent recomputation)
 	OracleError string   // why the imported files could not be read back (Oracle = ["unreadable"])
+}
+
+// refusalReason: the innermost message of an error of the importer, without
+// the values in it (evidence only, never part of a verdict).
+func refusalReason(s string) string {
+	if i := strings.LastIndex(s, ": "); i >= 0 {
+		s = s[i+2:]
+	}
+
+	for _, sep := range []string{",", "=", "\"", "'"} {
+		if i := strings.Index(s, sep); i > 0 {
+			s = s[:i]
+		}
+	}
+
+	if len(s) > 60 {
+		s = s[:60]
+	}
+
+	return strings.TrimSpace(s)
 }
 
 func errs(err error) string {
@@ -562,7 +590,7 @@ func variants(rig *blkrig.Rig) []variant {
 func TestC16(t *testing.T) {
 	r := vlib.Start(t, "C16", vlib.LevelExploration)
 	defer r.Finish()
-	r.SetRule("case = one block served item by item to the real isaacblock.BlockImporter (NewBlockImporter, WriteItem per item of the served map, Save, deferred merge); honest = block written by the real Writer+LocalFSWriter; tampered = the same block with one item (pair) replaced, written again through LocalFSWriter so that checksums are recomputed and the map (same manifest) is re-signed by the serving node; degenerate variants with whole items (states, operations, trees) stripped from the re-signed map; sources that never deliver one / two / all items of the honest map (WriteItem never called for them before Save; and through the real ImportBlocks with an item function that returns nil, or reports not found, for them); controls: stale checksum (honest map, tampered files), voteproofs of another height; a served map must pass BlockMap.IsValid first, as the importer's callers demand; when stored, the imported files are judged by isaacblock.IsValidBlockFromLocalFS and by an independent recomputation of the statement's clauses; distinct = (kind, world, height, #ops, #states); non-trivial = every case")
+	r.SetRule("case = one block served item by item to the real isaacblock.BlockImporter (NewBlockImporter, WriteItem per item of the served map, Save, deferred merge); honest = block written by the real Writer+LocalFSWriter; tampered = the same block with one item (pair) replaced, written again through LocalFSWriter so that checksums are recomputed and the map (same manifest) is re-signed by the serving node; degenerate variants with whole items (states, operations, trees) stripped from the re-signed map; sources that never deliver one / two / all items of the honest map (WriteItem never called for them before Save; and through the real ImportBlocks with an item function that returns nil, or reports not found, for them); controls: stale checksum (honest map, tampered files), voteproofs of another height; items that do NOT match the served map (field Map of the case set): the source serves items as byte streams from memory, so map and items vary independently: for every item type of the map (proposal, operations, operations_tree, states, states_tree, voteproofs) x every way of damaging an item (body truncated, header only, one bit flipped, stream cut, one bit of the compressed stream flipped, the item of another block of the same chain, directed for the voteproofs item: well-formed JSON in which one sign fact of one voteproof has its fact key renamed / is null / signs null ; in the INIT and in the ACCEPT voteproof every hash-valued member (hash, proposal, previous_block / new_block) of the fact the first sign fact signs absent and null; for every item with a count in its header line that count one more / one less than its lines (each of these directed cases on a non-genesis block, first item by item through the importer under the panic guard, then, unless that panicked, through ImportBlocks); thorough tier only, one non-genesis block per world, exhaustive scan: every member of every JSON object of every line of every item renamed, every value and array element null, and the single-bit flips of the body (world w flips the bits 8*position+bit = w mod #worlds, so one run covers every bit place of the layout once), the damaged item delivered first, item by item under the panic guard (Kind scan-*, Where = the place), and every tampered item of the variants above taken alone) the item is served under the GENUINE, un-re-signed map of the block (map=genuine); variants that tamper several items are also served with a map re-signed after recomputing the checksums of all but one tampered item (map=resigned-for-others), and with all, or all but one, of these checksums recomputed but the genuine signature kept (map=recomputed-signature-stale, map=recomputed-for-others-signature-stale); half of these through the importer item by item (seekable readers), half through the real ImportBlocks (plain streams); quick tier: every (item type, damage) pair at least once per world, spread over its blocks; a served map must pass BlockMap.IsValid first, as the importer's callers demand; when stored, the imported files are judged by isaacblock.IsValidBlockFromLocalFS and by an independent recomputation of the statement's clauses; distinct = (kind, world, height, #ops, #states, path); non-trivial = every case")
 	r.Assume("stored = BlockImporter.Save and its deferred merge returned nil (block write database on memory storage, merge callback a no-op)")
 	r.Assume("independent oracle: operations item = the in-state nodes of a valid operations tree whose root is manifest.OperationsTree (not-in-state nodes need no stored operation, as the real Writer does not store them); states item = exactly the keys of a valid states tree whose root is manifest.StatesTree, all at the manifest height; proposal fact hash = manifest.Proposal; both voteproofs at the manifest height and at one and the same point (height and round; the manifest itself carries no round, and the round of the proposal is not compared, since voteproofs of a suffrage majority for this very block at another round cannot exist without that majority signing them); ACCEPT majority's new block = manifest.Hash")
 
@@ -570,7 +598,16 @@ func TestC16(t *testing.T) {
 	nblocks := r.N(5, 8)
 
 	judge := func(c icase, o outcome) {
-		r.Case(fmt.Sprintf("%s/w%d/h%d/o%d/s%d", c.Kind, c.World, c.Height, c.NOps, c.NStates))
+		fp := fmt.Sprintf("%s/w%d/h%d/o%d/s%d", c.Kind, c.World, c.Height, c.NOps, c.NStates)
+		if c.Via != "" {
+			fp += "/via=" + c.Via
+		}
+
+		if c.Where != "" {
+			fp += "/" + c.Where
+		}
+
+		r.Case(fp)
 		r.Count("served_"+c.Kind, 1)
 		r.Sample(map[string]any{"case": c, "outcome": o})
 
@@ -611,6 +648,41 @@ func TestC16(t *testing.T) {
 			map[string]any{"case": c, "outcome": o})
 	}
 
+	// judgeUnmatched: judge + what the cases whose items do not match the served map showed
+	var sampled bool
+
+	judgeUnmatched := func(c icase, o outcome) {
+		judge(c, o)
+
+		r.Count("unmatched_cases", 1)
+		r.Count("unmatched_map_"+c.Map, 1)
+		r.Count("unmatched_tamper_"+c.Tamper, 1)
+		r.Count("unmatched_via_"+c.Via, 1)
+
+		if c.Item != "" {
+			r.Count("unmatched_item_"+c.Item, 1)
+			r.SetAdd("unmatched_item_x_tamper_x_map", c.Item+"/"+c.Tamper+"/"+c.Map)
+		}
+
+		switch {
+		case o.Stored:
+			r.Count("unmatched_stored", 1)
+		default:
+			r.Count("unmatched_refused", 1)
+			r.SetAdd("unmatched_refusal_reasons", refusalReason(o.ImportError))
+
+			if !sampled && c.Map == "genuine" {
+				sampled = true
+
+				r.Set("unmatched_sample", map[string]any{"case": c, "outcome": o})
+			}
+		}
+	}
+
+	stride := r.N(4, 1)  // byte-level damage: every stride-th (item type, damage) pair per block
+	vstride := r.N(2, 1) // variants: every vstride-th variant per block
+	vias := []string{"importer", "importblocks"}
+
 	for w := 0; w < worlds; w++ {
 		rng := r.Rand(16, w)
 		rig := blkrig.New()
@@ -636,6 +708,18 @@ func TestC16(t *testing.T) {
 		chain.Close()
 		r.Count("real_blocks_written", nblocks)
 
+		// every block of the world as the bytes a sync source sends
+		hsrcs := map[base.Height]*source{}
+
+		for _, b := range chain.Blocks {
+			s, err := loadSource(rig, srcroot, b.Height)
+			if err != nil {
+				t.Fatalf("load source: %+v", err)
+			}
+
+			hsrcs[b.Height] = s
+		}
+
 		n := 0
 		var runWith func(c icase, h base.Height, f func(dst string) (bool, error))
 
@@ -643,39 +727,219 @@ func TestC16(t *testing.T) {
 			runWith(c, h, func(dst string) (bool, error) { return serve(rig, src, dst, h, m, nil) })
 		}
 
-		runWith = func(c icase, h base.Height, servef func(dst string) (bool, error)) {
-			n++
-			dst := filepath.Join(wdir, fmt.Sprintf("dst-%d", n))
+		// import: one import under watchdog and panic guard, judged by the caller
+		imprt := func(c icase, h base.Height, dst string, servef func(dst string) (bool, error)) (o outcome, ok, panicked bool) {
+			var g outcome // read only once the import has returned
+			var p bool
 
-			var o outcome
-
-			ok := r.WithWatchdog(2*time.Minute, "import", func() {
-				r.Guard("BlockImporter:"+c.Kind, c, func() {
+			ok = r.WithWatchdog(5*time.Minute, "import", func() {
+				p = r.Guard("BlockImporter:"+c.Kind, c, func() {
 					stored, err := servef(dst)
-					o.Stored = stored
-					o.ImportError = errs(err)
+					g.Stored = stored
+					g.ImportError = errs(err)
 
 					if !stored {
 						return
 					}
 
 					dr := rig.Readers(dst)
-					o.Validator = errs(isaacblock.IsValidBlockFromLocalFS(dr.Item, h, rig.NetworkID, nil, nil, nil))
+					g.Validator = errs(isaacblock.IsValidBlockFromLocalFS(dr.Item, h, rig.NetworkID, nil, nil, nil))
 
 					switch ib, err := rig.Load(dr, h); {
 					case err != nil:
-						o.Oracle = []string{"unreadable"}
-					o.OracleError = errs(err)
+						g.Oracle = []string{"unreadable"}
+						g.OracleError = errs(err)
 					default:
-						o.Oracle = oracle(ib)
+						g.Oracle = oracle(ib)
 					}
 				})
 			})
 			if !ok {
-				return
+				return outcome{}, false, false
 			}
 
-			judge(c, o)
+			return g, true, p
+		}
+
+		runWith = func(c icase, h base.Height, servef func(dst string) (bool, error)) {
+			n++
+
+			if o, ok, _ := imprt(c, h, filepath.Join(wdir, fmt.Sprintf("dst-%d", n)), servef); ok {
+				judge(c, o)
+			}
+		}
+
+		// runUnmatched queues a case in which the served items do not match the
+		// served map; flushUnmatched runs the queued cases (independent of each
+		// other: own source, own destination, own database) on a few workers
+		// and judges them in the order they were queued
+		type queued struct {
+			c   icase
+			h   base.Height
+			s   *source
+			dst string
+		}
+
+		var queue []queued
+
+		runUnmatched := func(c icase, h base.Height, s *source) {
+			n++
+			queue = append(queue, queued{c: c, h: h, s: s, dst: filepath.Join(wdir, fmt.Sprintf("dst-%d", n))})
+		}
+
+		flushUnmatched := func() {
+			outs := make([]outcome, len(queue))
+			oks := make([]bool, len(queue))
+
+			vlib.Parallel(len(queue), 8, func(i int) {
+				q := queue[i]
+				outs[i], oks[i], _ = imprt(q.c, q.h, q.dst, func(dst string) (bool, error) { return serveSource(rig, q.s, dst, q.h, q.c.Via) })
+			})
+
+			for i := range queue {
+				if oks[i] {
+					judgeUnmatched(queue[i].c, outs[i])
+				}
+			}
+
+			queue = nil
+		}
+
+		// runDirected: a directed case, at once and on this goroutine: first
+		// item by item through the importer, where a panic of the repository's
+		// decoding is recovered by the guard and reported as a violation;
+		// through ImportBlocks (which decodes on worker goroutines of its own,
+		// where a panic would kill the monitor) only if that did not panic
+		runDirected := func(c icase, h base.Height, s *source) {
+			for _, via := range vias {
+				n++
+				c.Via = via
+
+				o, ok, panicked := imprt(c, h, filepath.Join(wdir, fmt.Sprintf("dst-%d", n)), func(dst string) (bool, error) {
+					return serveSource(rig, s, dst, h, via)
+				})
+
+				r.Count("directed_cases", 1)
+				r.Count("directed_"+c.Tamper, 1)
+
+				switch {
+				case panicked:
+					r.Count("directed_panicked", 1)
+
+					return
+				case ok:
+					judgeUnmatched(c, o)
+				}
+			}
+		}
+
+		// scan: exhaustive damage of every item of one block (thorough tier):
+		// every member of every JSON object renamed, every value and every
+		// array element null, and single-bit flips of the body; world w takes
+		// the flips of the bits (8*position+bit) = w modulo the number of
+		// worlds, so that a run covers every bit place of the item layout
+		// once. The damaged item is delivered first, item by item through the
+		// importer under the panic guard, under the genuine map.
+		scan := func(h base.Height, base0 icase, hsrc *source, types []base.BlockItemType) {
+			type job struct {
+				it     base.BlockItemType
+				tamper string
+				where  string
+				body   []byte // structural damage
+				bit    int    // bit flip: 8*position+bit
+			}
+
+			var jobs []job
+
+			for _, it := range types {
+				body, err := hsrc.items[it].body()
+				if err != nil {
+					t.Fatalf("scan: %+v", err)
+				}
+
+				for _, e := range bodyEdits(body) {
+					jobs = append(jobs, job{it: it, tamper: "scan-" + e.Kind, where: fmt.Sprintf("line%d%s", e.Line, e.Path), body: e.Body})
+				}
+
+				for i := w % worlds; i < len(body)*8; i += worlds {
+					jobs = append(jobs, job{it: it, tamper: "scan-bit-flipped", where: fmt.Sprintf("byte%d.bit%d", i/8, i%8), bit: i})
+				}
+			}
+
+			cases := make([]icase, len(jobs))
+			outs := make([]outcome, len(jobs))
+			oks := make([]bool, len(jobs))
+			n0 := n
+			n += len(jobs)
+
+			// memory storages for the block write databases: one per import
+			// in flight, used again after a refused import
+			msts := make(chan *leveldbstorage.Storage, 12)
+			defer func() {
+				close(msts)
+
+				for mst := range msts {
+					_ = mst.Close()
+				}
+			}()
+
+			vlib.Parallel(len(jobs), 12, func(i int) {
+				j := jobs[i]
+
+				var mst *leveldbstorage.Storage
+
+				select {
+				case mst = <-msts:
+				default:
+					mst = leveldbstorage.NewMemStorage()
+				}
+
+				nb := j.body
+				if nb == nil {
+					nb, _ = hsrc.items[j.it].body()
+					nb[j.bit/8] ^= 1 << uint(j.bit%8)
+				}
+
+				s := hsrc.with(nil, map[base.BlockItemType]rawItem{j.it: pack(nb, hsrc.items[j.it].Format)})
+				s.first, s.mst = j.it, mst
+
+				c := base0
+				c.Item, c.Tamper, c.Map, c.Via, c.Where = string(j.it), j.tamper, "genuine", "importer", j.where
+				c.Kind = fmt.Sprintf("%s:item=%s:map=genuine", j.tamper, j.it)
+				c.Broken = fmt.Sprintf("item %s: %s at %s; every other item and the block map (signature, checksums) are the genuine ones", j.it, j.tamper, j.where)
+				cases[i] = c
+
+				dst := filepath.Join(wdir, fmt.Sprintf("dst-%d", n0+1+i))
+				outs[i], oks[i], _ = imprt(c, h, dst, func(dst string) (bool, error) { return serveSource(rig, s, dst, h, "importer") })
+
+				switch {
+				case oks[i] && !outs[i].Stored:
+					_ = os.RemoveAll(dst)
+					msts <- mst
+				case oks[i]:
+					_ = mst.Close()
+				}
+			})
+
+			for i := range jobs {
+				if !oks[i] {
+					continue
+				}
+
+				judge(cases[i], outs[i])
+
+				r.Count("scan_inputs", 1)
+				r.Count("scan_inputs_"+jobs[i].tamper, 1)
+				r.Count("scan_item_"+string(jobs[i].it), 1)
+
+				switch {
+				case !outs[i].Stored:
+					r.Count("scan_refused", 1)
+					r.SetAdd("scan_refusal_reasons", refusalReason(outs[i].ImportError))
+				case outs[i].Validator == "" && len(outs[i].Oracle) == 0:
+					r.Count("scan_stored_consistent", 1)
+				}
+			}
 		}
 
 		for _, b := range chain.Blocks {
@@ -786,6 +1050,129 @@ func TestC16(t *testing.T) {
 				})
 			}
 
+			// items that do not match the served map: byte streams served from memory
+			hsrc := hsrcs[b.Height]
+			types := blkrig.SortedItemTypes(hsrc.m)
+			grng := r.Rand(16, w, 1000+int(b.Height))
+
+			// control: the genuine items as byte streams under the genuine map
+			// (quick tier: one path per block, alternating)
+			for i := range vias {
+				if r.Quick() && i != (int(b.Height)+w)%2 {
+					continue
+				}
+
+				hc := base0
+				hc.Kind, hc.Honest, hc.Via = "honest:byte-source", true, vias[i]
+				hc.Broken = "nothing (the genuine items as byte streams under the genuine map)"
+				runWith(hc, b.Height, func(dst string) (bool, error) { return serveSource(rig, hsrc, dst, b.Height, hc.Via) })
+			}
+
+			{
+				tampers := append(byteTampers(), byteTamper{
+					"other-block", "the item of the same type of another block of the same chain",
+					func(it rawItem, _ *rand.Rand) (rawItem, bool) { return it, false }, // made below
+				})
+
+				for ti, it := range types {
+					for ki, bt := range tampers {
+						if (ti+ki+int(b.Height))%stride != 0 {
+							continue
+						}
+
+						c := base0
+						c.Item, c.Tamper, c.Map, c.Via = string(it), bt.kind, "genuine", vias[(ti+ki+w)%2]
+						c.Kind = fmt.Sprintf("%s:item=%s:map=genuine", bt.kind, it)
+						c.Broken = fmt.Sprintf("item %s: %s; every other item and the block map (signature, checksums) are the genuine ones", it, bt.broken)
+
+						var ri rawItem
+
+						switch {
+						case bt.kind == "other-block":
+							var cands []base.Height
+
+							for _, ob := range chain.Blocks {
+								if _, found := hsrcs[ob.Height].items[it]; found && ob.Height != b.Height {
+									cands = append(cands, ob.Height)
+								}
+							}
+
+							if len(cands) < 1 {
+								continue
+							}
+
+							oh := cands[grng.Intn(len(cands))]
+							ri = hsrcs[oh].items[it]
+							c.Broken += fmt.Sprintf(" (height %d)", oh)
+						default:
+							i, ok := bt.make(hsrc.items[it], grng)
+							if !ok {
+								continue
+							}
+
+							ri = i
+						}
+
+						runUnmatched(c, b.Height, hsrc.with(nil, map[base.BlockItemType]rawItem{it: ri}))
+					}
+				}
+			}
+
+			// directed: well-formed JSON in which a sign fact of a voteproof, or
+			// the fact it signs, is missing (quick tier: one block per world)
+			directedBlock := int(b.Height) == 1+w%(nblocks-2) // not the genesis block
+
+			if !r.Quick() || directedBlock {
+				for _, st := range signFactTampers() {
+					ri, ok := st.make(hsrc.items[base.BlockItemVoteproofs], grng)
+					if !ok {
+						r.Inconclusive("directed case " + st.kind + " could not be built from the voteproofs item")
+
+						continue
+					}
+
+					c := base0
+					c.Item, c.Tamper, c.Map = string(base.BlockItemVoteproofs), st.kind, "genuine"
+					c.Kind = fmt.Sprintf("%s:item=%s:map=genuine", st.kind, base.BlockItemVoteproofs)
+					c.Broken = fmt.Sprintf("item voteproofs: %s; every other item and the block map (signature, checksums) are the genuine ones", st.broken)
+					runDirected(c, b.Height, hsrc.with(nil, map[base.BlockItemType]rawItem{base.BlockItemVoteproofs: ri}))
+				}
+
+				// every hash-valued member of the fact a sign fact signs, in the
+				// INIT and in the ACCEPT voteproof, absent and null
+				for _, ft := range factFieldTampers(hsrc.items[base.BlockItemVoteproofs]) {
+					c := base0
+					c.Item, c.Tamper, c.Map = string(base.BlockItemVoteproofs), ft.Kind, "genuine"
+					c.Kind = fmt.Sprintf("%s:item=%s:map=genuine", ft.Kind, base.BlockItemVoteproofs)
+					c.Broken = fmt.Sprintf("item voteproofs: %s; every other item and the block map (signature, checksums) are the genuine ones", ft.Broken)
+					runDirected(c, b.Height, hsrc.with(nil, map[base.BlockItemType]rawItem{base.BlockItemVoteproofs: ft.Item}))
+				}
+
+				// the count in the header line of an item one less / one more
+				// than the lines it holds
+				for _, it := range types {
+					for _, d := range []struct {
+						kind  string
+						delta int
+					}{{"count-raised", 1}, {"count-lowered", -1}} {
+						ri, ok := countTamper(hsrc.items[it], d.delta)
+						if !ok {
+							continue
+						}
+
+						c := base0
+						c.Item, c.Tamper, c.Map = string(it), d.kind, "genuine"
+						c.Kind = fmt.Sprintf("%s:item=%s:map=genuine", d.kind, it)
+						c.Broken = fmt.Sprintf("item %s: the count in its header line is changed by %+d, its lines are untouched; every other item and the block map (signature, checksums) are the genuine ones", it, d.delta)
+						runDirected(c, b.Height, hsrc.with(nil, map[base.BlockItemType]rawItem{it: ri}))
+					}
+				}
+			}
+
+			if r.Thorough() && directedBlock {
+				scan(b.Height, base0, hsrc, types)
+			}
+
 			for vi, v := range variants(rig) {
 				tb := b.Clone()
 				if !v.make(tb) {
@@ -808,7 +1195,104 @@ func TestC16(t *testing.T) {
 					cc.Kind = "stale-checksum:" + v.kind
 					run(cc, vroot, b.Height, b.Map)
 				}
+
+				// the tampered items of the variant against maps that do not match them
+				if (vi+int(b.Height))%vstride != 0 {
+					continue
+				}
+
+				vsrc, err := loadSource(rig, vroot, b.Height)
+				if err != nil {
+					t.Fatalf("load source of variant %s: %+v", v.kind, err)
+				}
+
+				var diff []base.BlockItemType
+				recomputed := map[base.BlockItemType]string{}
+				tampered := map[base.BlockItemType]rawItem{} // the items of the variant whose content differs
+
+				for _, it := range types {
+					if vit, found := vsrc.items[it]; found && !sameContent(vit, hsrc.items[it]) {
+						diff = append(diff, it)
+
+						mi, _ := vsrc.m.Item(it)
+						recomputed[it] = mi.Checksum()
+						tampered[it] = vit
+					}
+				}
+
+				if len(diff) < 1 {
+					r.Inconclusive(fmt.Sprintf("variant %s: no item differs from the honest block", v.kind))
+
+					continue
+				}
+
+				r.Count(fmt.Sprintf("variants_with_%d_tampered_items", len(diff)), 1)
+
+				for di, it := range diff {
+					// this tampered item alone, everything else and the map genuine
+					gc := c
+					gc.NOps, gc.NStates = base0.NOps, base0.NStates
+					gc.Item, gc.Tamper, gc.Map, gc.Via = string(it), v.kind, "genuine", vias[(vi+di+w)%2]
+					gc.Kind = fmt.Sprintf("%s:item=%s:map=genuine", v.kind, it)
+					gc.Broken = fmt.Sprintf("%s -- of this only item %s is served, every other item and the block map (signature, checksums) are the genuine ones", v.broken, it)
+					runUnmatched(gc, b.Height, hsrc.with(nil, map[base.BlockItemType]rawItem{it: vsrc.items[it]}))
+
+					if len(diff) < 2 {
+						continue
+					}
+
+					// all tampered items; the serving node recomputed the checksums
+					// of the other tampered items and re-signed, this item's
+					// checksum is still the genuine one
+					others := map[base.BlockItemType]string{}
+
+					for k, cs := range recomputed {
+						if k != it {
+							others[k] = cs
+						}
+					}
+
+					nm, err := mapWith(rig, hsrc.m, others, true)
+					if err != nil {
+						t.Fatalf("re-sign map: %+v", err)
+					}
+
+					pc := c
+					pc.Item, pc.Tamper, pc.Map, pc.Via = string(it), v.kind, "resigned-for-others", vias[(vi+di+w+1)%2]
+					pc.Kind = fmt.Sprintf("%s:item=%s:map=resigned-for-others", v.kind, it)
+					pc.Broken = fmt.Sprintf("%s -- the map is re-signed with the recomputed checksums of the other tampered items, the checksum of item %s is the genuine one", v.broken, it)
+					runUnmatched(pc, b.Height, hsrc.with(nm, tampered))
+
+					// the same checksums, but the map is not even re-signed
+					sm, err := mapWith(rig, hsrc.m, others, false)
+					if err != nil {
+						t.Fatalf("stale map: %+v", err)
+					}
+
+					oc := c
+					oc.Item, oc.Tamper, oc.Map, oc.Via = string(it), v.kind, "recomputed-for-others-signature-stale", vias[(vi+di+w)%2]
+					oc.Kind = fmt.Sprintf("%s:item=%s:map=recomputed-for-others-signature-stale", v.kind, it)
+					oc.Broken = fmt.Sprintf("%s -- the checksums of the other tampered items are recomputed in the map, the checksum of item %s and the signature are the genuine ones (the signature now stale)", v.broken, it)
+					runUnmatched(oc, b.Height, hsrc.with(sm, tampered))
+				}
+
+				// all tampered items, all their checksums recomputed, but the map
+				// still carries the genuine signature
+				{
+					nm, err := mapWith(rig, hsrc.m, recomputed, false)
+					if err != nil {
+						t.Fatalf("stale map: %+v", err)
+					}
+
+					sc := c
+					sc.Tamper, sc.Map, sc.Via = v.kind, "recomputed-signature-stale", vias[(vi+w)%2]
+					sc.Kind = v.kind + ":map=recomputed-signature-stale"
+					sc.Broken = v.broken + " -- the checksums of the tampered items are recomputed in the map, its signature is the genuine (now stale) one"
+					runUnmatched(sc, b.Height, hsrc.with(nm, tampered))
+				}
 			}
+
+			flushUnmatched()
 		}
 	}
 
@@ -818,5 +1302,34 @@ func TestC16(t *testing.T) {
 
 	if r.Counter("rejected_by_importer") < 1 {
 		r.Inconclusive("the importer rejected nothing")
+	}
+
+	for _, it := range []base.BlockItemType{
+		base.BlockItemProposal, base.BlockItemOperations, base.BlockItemOperationsTree,
+		base.BlockItemStates, base.BlockItemStatesTree, base.BlockItemVoteproofs,
+	} {
+		if r.Counter("unmatched_item_"+string(it)) < 1 {
+			r.Inconclusive(fmt.Sprintf("no %s item was served that does not match the served map", it))
+		}
+	}
+
+	for _, k := range []string{
+		"signfact-key-renamed", "signfact-null", "signfact-fact-null",
+		"init-fact-hash-absent", "init-fact-previous_block-null", "accept-fact-new_block-null", "accept-fact-proposal-null",
+		"count-lowered", "count-raised",
+	} {
+		if r.Counter("directed_"+k) < 1 {
+			r.Inconclusive("the directed case " + k + " was not run")
+		}
+	}
+
+	if r.Thorough() && r.Counter("scan_inputs") < 1 {
+		r.Inconclusive("the exhaustive scan did not run")
+	}
+
+	for _, m := range []string{"genuine", "resigned-for-others", "recomputed-signature-stale", "recomputed-for-others-signature-stale"} {
+		if r.Counter("unmatched_map_"+m) < 1 {
+			r.Inconclusive("no case with map=" + m)
+		}
 	}
 }
